@@ -41,6 +41,8 @@ type vpRunRec struct {
 	Offline          bool     `json:"offline"`
 }
 
+var vpBig = make([]byte, 2<<20)
+
 func TestVerifPoolRun(t *testing.T) {
 	out := os.Getenv("VERIF_OUT")
 	if out == "" {
@@ -204,9 +206,9 @@ func TestVerifPoolRun(t *testing.T) {
 						// a peer that is not there: the dial is refused
 						note("connect-refused", p.Connect(deadPeer))
 					case 6:
-						if k := crng.Intn(4); k == 0 {
-							note("send", p.SendMessage(peer, &vwMsg{A: 1, B: make([]byte, 4<<20)})) // more than the socket of a peer that does not read takes
-						} else if k == 1 {
+						if k := crng.Intn(16); k == 0 {
+							note("send", p.SendMessage(peer, &vwMsg{A: 1, B: vpBig})) // a few of these are more than the socket of a peer that does not read takes
+						} else if k < 6 {
 							note("send", p.SendMessage(peer, &vwMsg{A: 1, B: make([]byte, 200*1024)}))
 						} else {
 							note("send", p.SendMessage(peer, &vwMsg{A: 1, B: []byte{1, 2, 3}}))
